@@ -164,6 +164,8 @@ def run(ctx):
             # a listed pair whose direct distance is not below the cutoff was reached through an image
             for i, row in enumerate(r_['nl']):
                 for j in row:
+                    if not (1 <= j <= len(P)):
+                        continue
                     if ((P[i] - P[j - 1]) ** 2).sum() >= r_['cut2']:
                         nontriv = True
                         break
